@@ -87,16 +87,34 @@ func kindOf(n *refcbor.Node) string {
 	return "other"
 }
 
+// c20Good is a known-good token used to put an Evidence into a non-pristine state.
+var c20Good []byte
+
 func c20Judge(c *mon.Ctx, class string, tok []byte, mustAccept bool) {
 	c.Eval()
 	c.Count("envelopes:" + class)
 	var ev *psatoken.Evidence
 	var err error
 	var ev2 psatoken.Evidence
-	var err2 error
+	var err2, err3, err4 error
 	if pn, pv, fr := mon.Guard(func() {
 		ev, err = psatoken.DecodeEvidenceFromCOSE(tok)
 		err2 = ev2.UnmarshalCOSE(tok)
+		// Evidence objects that are not pristine: claims already attached /
+		// a good token already decoded
+		if c20Good != nil {
+			pre, _ := psatoken.NewClaims(model.P2Name)
+			ev3 := &psatoken.Evidence{Claims: pre}
+			err3 = ev3.UnmarshalCOSE(tok)
+			ev4 := &psatoken.Evidence{}
+			if ev4.UnmarshalCOSE(c20Good) == nil {
+				err4 = ev4.UnmarshalCOSE(tok)
+			} else {
+				err4 = err
+			}
+		} else {
+			err3, err4 = err, err
+		}
 	}); pn {
 		c.Violation("C20/panic/"+mon.PanicKey(fr), "panic while decoding an envelope", map[string]any{"panic": pv, "frame": fr, "class": class, "token_hex": mon.Hex(tok)})
 		return
@@ -113,6 +131,11 @@ func c20Judge(c *mon.Ctx, class string, tok []byte, mustAccept bool) {
 		c.Violation("C20/entry-points-disagree/"+class, fmt.Sprintf("DecodeEvidenceFromCOSE (%v) and Evidence.UnmarshalCOSE (%v) disagree", err, err2), det)
 		return
 	}
+	if (err == nil) != (err3 == nil) || (err == nil) != (err4 == nil) {
+		c.Violation("C20/reused-evidence-disagrees/"+class, fmt.Sprintf("the same envelope is judged differently by a fresh Evidence (%v), one with claims already attached (%v) and one that decoded a good token before (%v)", err, err3, err4), det)
+		return
+	}
+	c.Count("reused-evidence-agreed")
 	ok, open, why := envelopeVerdict(tok)
 	if err != nil {
 		c.Count("outcome:rejected")
@@ -154,7 +177,7 @@ func c20Judge(c *mon.Ctx, class string, tok []byte, mustAccept bool) {
 }
 
 func runC20(c *mon.Ctx) {
-	c.Rule("envelopes assembled by the harness's own CBOR encoder around real signed tokens (7 algorithms, both profiles + extension): every tag 0..30 / 61 / 96 / 97 / 98 / none / nested / non-minimal; array lengths 0..6; each of the four elements replaced by every CBOR kind (uint, nint, bstr, empty bstr, tstr, array, map, tag, false, true, null, undefined, float); payload content := int / tstr / array / null / undefined / true / float / bstr(map) / bstr(bstr(map)) / tagged map / map+trailing / empty / truncated map / indefinite map; 1-8 trailing bytes; COSE_Sign, COSE_Mac0, COSE_Mac, COSE_Encrypt0 layouts under their own tag and under tag 18; the four TF-M vectors (both *_mac0.bin must be rejected, both *_sign1.bin accepted); random AST mutations. Oracle: a nil error from DecodeEvidenceFromCOSE / Evidence.UnmarshalCOSE requires that the independent reader sees tag 18 -> array of exactly 4 -> [bstr, map, bstr, non-empty bstr], nothing after it, and a payload whose content is exactly one CBOR map that decodes as claims (tagged map = NO-VERDICT); both entry points must agree; an accepted Evidence must hold (hook H2) exactly the token's parts; unmodified tokens must be accepted (positive control). distinct_nontrivial = distinct (class, variant) signatures")
+	c.Rule("envelopes assembled by the harness's own CBOR encoder around real signed tokens (7 algorithms, both profiles + extension): every tag 0..30 / 61 / 96 / 97 / 98 / none / nested / non-minimal; array lengths 0..6; each of the four elements replaced by every CBOR kind (uint, nint, bstr, empty bstr, tstr, array, map, tag, false, true, null, undefined, float); payload content := int / tstr / array / null / undefined / true / float / bstr(map) / bstr(bstr(map)) / tagged map / map+trailing / empty / truncated map / indefinite map; 1-8 trailing bytes; COSE_Sign, COSE_Mac0, COSE_Mac, COSE_Encrypt0 layouts under their own tag and under tag 18; the four TF-M vectors (both *_mac0.bin must be rejected, both *_sign1.bin accepted); random AST mutations. tag numbers whose low-order bytes are 18 (0x112, 0x1212, 2^16+18, 2^32+18 ...) in every argument width. Every envelope is judged by DecodeEvidenceFromCOSE, by UnmarshalCOSE on a fresh Evidence, on an Evidence with claims already attached, and on an Evidence that decoded a good token before - all four must agree. Oracle: a nil error from DecodeEvidenceFromCOSE / Evidence.UnmarshalCOSE requires that the independent reader sees tag 18 -> array of exactly 4 -> [bstr, map, bstr, non-empty bstr], nothing after it, and a payload whose content is exactly one CBOR map that decodes as claims (tagged map = NO-VERDICT); both entry points must agree; an accepted Evidence must hold (hook H2) exactly the token's parts; unmodified tokens must be accepted (positive control). distinct_nontrivial = distinct (class, variant) signatures")
 	if err := extprof.Register(extprof.ExtP2Name); err != nil {
 		c.Violation("harness/register", err.Error(), nil)
 		return
@@ -234,6 +257,7 @@ func runC20(c *mon.Ctx) {
 		sig := func(s string) { c.Sig(s) } // class signatures are algorithm independent on purpose
 		_ = base
 
+		c20Good = st.tok
 		// positive controls
 		c20Judge(c, "control:library-token", st.tok, true)
 		c20Judge(c, "control:reassembled", envelopeBytes(18, parts()...), true)
@@ -248,6 +272,16 @@ func runC20(c *mon.Ctx) {
 			}
 			c20Judge(c, "tag", envelopeBytes(t, parts()...), false)
 			sig(fmt.Sprintf("tag|%d", t))
+		}
+		// tag numbers whose low-order byte(s) are 18: a parser that truncates the argument takes them for tag 18
+		for _, t := range []uint64{0x112, 0x212, 0x1212, 0xff12, 0x10012, 0x120012, 0x12000012, 0x100000012, 0x1200, 0x120000, 0x12 << 56, 0x1200000000000012, 18 + 256, 18 + 65536, 18 + 1<<32} {
+			for _, w := range []int{0, 2, 4, 8} {
+				if w != 0 && w != 8 && t >= 1<<(8*uint(w)) {
+					continue
+				}
+				c20Judge(c, "tag-with-low-byte-18", refcbor.Encode(refcbor.Tagged(t, refcbor.Arr(parts()...)).WithArgW(w)), false)
+			}
+			sig(fmt.Sprintf("tag-low-byte-18|%x", t))
 		}
 		for _, t := range []uint64{61, 96, 97, 98, 55799, 1 << 32} {
 			c20Judge(c, "tag", envelopeBytes(int64(t), parts()...), false)
